@@ -122,12 +122,14 @@ RECURSIVE ApplyVts(_, _, _)
 ApplyVts(vts, vs, k) ==       \* apply the value-level transformations vts[k..] to the values vs
     IF k > Len(vts) THEN [st |-> "ok", vals |-> vs]
     ELSE LET rs == [j \in 1..Len(vs) |->
-                      IF vs[j].t = "exp" /\ vts[k].type = "convtype" THEN      \* the alternatives of an expansion are converted one by one
+                      \* the alternatives a modifier made of one value (windash, base64offset) are values like any other:
+                      \* a value-level transformation rewrites each of them (several results of one alternative are alternatives)
+                      IF vs[j].t = "exp" /\ IsValueLevel(vts[k]) /\ vts[k].type # "setvalue" THEN
                           (LET ms == [m \in 1..Len(vs[j].vals) |-> ValueRw(vts[k], vs[j].vals[m])]
                                mst == Worst([m \in 1..Len(ms) |-> ms[m].st])
                            IN  IF mst # "ok" THEN [st |-> mst, vals |-> <<>>]
-                               ELSE [st |-> "ok", vals |-> <<[vs[j] EXCEPT !.vals = [m \in 1..Len(ms) |-> ms[m].vals[1]]]>>])
-                      ELSE IF vs[j].t = "exp" /\ vts[k].type # "setvalue" THEN [st |-> "ok", vals |-> <<vs[j]>>]     \* expansions are not entered
+                               ELSE [st |-> "ok", vals |-> <<[vs[j] EXCEPT !.vals = Concat([m \in 1..Len(ms) |-> ms[m].vals])]>>])
+                      ELSE IF vs[j].t = "exp" /\ vts[k].type # "setvalue" THEN [st |-> "ok", vals |-> <<vs[j]>>]     \* (no field references inside)
                       ELSE IF IsFieldLevel(vts[k]) THEN FieldRefRw(vts[k], vs[j]) ELSE ValueRw(vts[k], vs[j])]
              st == Worst([j \in 1..Len(rs) |-> rs[j].st])
          IN  IF st # "ok" THEN [st |-> st, vals |-> <<>>]
